@@ -69,7 +69,7 @@ type knownFinding struct {
 	Commit   string `json:"commit,omitempty"`
 }
 
-const knownPath = "/verif/known_findings.json"
+var knownPath = buildsys.VerifDir + "/known_findings.json"
 
 func loadKnown() []knownFinding {
 	b, err := os.ReadFile(knownPath)
@@ -127,6 +127,53 @@ func workRoot() string {
 	return d
 }
 
+// mutantOverlay supports self-tests on deliberately broken trees without
+// touching /repo: if PBSIM_MUTANT_DIFF names a unified diff, the files it
+// touches are copied to a scratch directory, patched there, and handed to the
+// overlay as replacements of /repo's files.
+func mutantOverlay(dir string) (map[string][]byte, error) {
+	diff := os.Getenv("PBSIM_MUTANT_DIFF")
+	if diff == "" {
+		return nil, nil
+	}
+	db, err := os.ReadFile(diff)
+	if err != nil {
+		return nil, err
+	}
+	var files []string
+	for _, l := range strings.Split(string(db), "\n") {
+		if strings.HasPrefix(l, "+++ b/") {
+			files = append(files, strings.TrimSpace(strings.TrimPrefix(l, "+++ b/")))
+		}
+	}
+	if len(files) == 0 {
+		return nil, fmt.Errorf("no files in %s", diff)
+	}
+	tmp := filepath.Join(dir, "mutant")
+	os.RemoveAll(tmp)
+	for _, f := range files {
+		dst := filepath.Join(tmp, f)
+		os.MkdirAll(filepath.Dir(dst), 0o755)
+		if src, err := os.ReadFile(filepath.Join(buildsys.RepoDir, f)); err == nil {
+			os.WriteFile(dst, src, 0o644)
+		}
+	}
+	cmd := exec.Command("patch", "-p1", "-s", "-d", tmp, "-i", diff)
+	if out, err := cmd.CombinedOutput(); err != nil {
+		return nil, fmt.Errorf("patch failed: %v: %s", err, out)
+	}
+	extra := map[string][]byte{}
+	for _, f := range files {
+		b, err := os.ReadFile(filepath.Join(tmp, f))
+		if err != nil {
+			return nil, err
+		}
+		extra[f] = b
+	}
+	fmt.Printf("pbsim: self-test: %d file(s) of /repo replaced through the overlay by %s (the tree itself is untouched)\n", len(extra), filepath.Base(diff))
+	return extra, nil
+}
+
 // pluginPath is the protoc-gen-go binary built from the working tree with the
 // runtime seam (C40 only).
 var pluginPath string
@@ -149,7 +196,12 @@ type built struct {
 
 func buildAll(dir string, cfgs []buildCfg) ([]built, *buildsys.Build, int) {
 	t0 := time.Now()
-	b, err := buildsys.Prepare(nil)
+	extra, err := mutantOverlay(dir)
+	if err != nil {
+		fmt.Fprintf(os.Stderr, "pbsim: PBSIM_MUTANT_DIFF: %v\n", err)
+		return nil, nil, 2
+	}
+	b, err := buildsys.Prepare(extra)
 	if err != nil {
 		fmt.Fprintf(os.Stderr, "pbsim: preparing overlay: %v\n", err)
 		return nil, nil, 2
@@ -356,7 +408,7 @@ func check(id, tier string) int {
 		die(2, "cannot load violating scenario: %v", err)
 	}
 	min, replays, verified := shrink(violBuild, s, violation.Violation.Class, dir, 150*time.Second)
-	rdir := "/verif/replays"
+	rdir := buildsys.VerifDir + "/replays"
 	if d := os.Getenv("PBSIM_REPLAY_DIR"); d != "" { // self-tests keep their replays out of /verif/replays
 		rdir = d
 	}
@@ -651,7 +703,7 @@ func (a *aggregate) write(wall float64, violations int) {
 		"violations":  violations,
 	}
 	b, _ := json.MarshalIndent(ev, "", " ")
-	edir := "/verif/evidence"
+	edir := buildsys.VerifDir + "/evidence"
 	if d := os.Getenv("PBSIM_EVIDENCE_DIR"); d != "" { // self-tests on deliberately broken trees keep their evidence elsewhere
 		edir = d
 	}
